@@ -99,7 +99,30 @@ func readBack(text []byte) (r any, ek, e string) {
 	return compress(project(v)), "", ""
 }
 
+func maxWidth(t M) int {
+	w := 0
+	switch t["t"] {
+	case "arr", "obj":
+		vs := t["v"].([]any)
+		if t["t"] == "obj" {
+			w = len(vs)
+		}
+		for _, e := range vs {
+			if x := maxWidth(e.(M)); x > w {
+				w = x
+			}
+		}
+	}
+	return w
+}
+
 func runSen(c scase, idx int) []byte {
+	// Go maps have no order: with two or more members and Sort off, two calls may emit different texts and a known
+	// quoting defect would surface under a different kind from run to run. Such trees are written with Sort on
+	// (the unsorted emission path is still exercised by every tree whose objects have at most one member).
+	if maxWidth(c.Tree) >= 2 {
+		c.O.Sort = true
+	}
 	simple, full := build(c.Tree, false)
 	type raw struct {
 		api   string
@@ -207,7 +230,8 @@ var senReps = []byte{'a', 't', 'n', 'f', 'e', 'E', '0', '1', '9', '+', '-', '.',
 	'"', '\'', '\\', '`', '|', '&', '<', '>', '=', '#', '!', '%', ';', '?', '@', '$', '^', '_', '~', '\t', '\n', '\r', 0x01, 0x7f,
 	0x80, 0xc3, 0xe2, 0xff}
 
-var reserved = []string{"true", "false", "null", "True", "nul", "nulll", "truex", "0", "1", "-1", "+1", "-", "+", "--", "+-", "-a", "+a",
+var reserved = []string{"true", "false", "null", "True", "nul", "nulll", "truex", "nil", "Nil", "None", "TRUE", "FALSE", "NULL", "Null", "False",
+	"undefined", "yes", "no", "on", "off", "t", "f", "n", "tru", "fals", "Inf", "+Inf", "-Inf", "0b1", "0o7", "1_000", "1,5", "$1", "?", "a?b", "~a", "0", "1", "-1", "+1", "-", "+", "--", "+-", "-a", "+a",
 	".5", "-.5", "1.5", "1e5", "1E5", "1e+5", "1e-5", "-0", "0.0", "1.", "01", "0x10", "123456789012345678901234567890", "1a", "a1",
 	"//x", "/*", "/* c */", "a//b", "a/*b", "/", "#x", "a(b)", "f(", "ISODate(1)", "a:b", ":", "a b", " a", "a ", "a,b", ",", "[", "]", "{", "}",
 	"[]", "{}", "\"", "'", "a\"b", "a'b", "\\", "a\\b", "`", "a`b", "|", "a|b", "&", "a&b", "<", "a<b", ">", "=", "a=b", "@", "$x", "*", "?",
